@@ -12,11 +12,17 @@ Proved here for every abstract state and every argument (no bound):
   `i` and changes no other entry (at most one other handle changes: the highest index);
 * histories: by induction over any list of operations, the vertex count is the number of
   successful new insertions minus removals.
-`C05_partial`: that spade's `insert`/`remove` implement these transitions (e.g. that `locate`
-finds an existing position) is decided per run by R1, not proved.
+* **on the insertion model M** (the transliterated insertion path, compared index for index with
+  the implementation — clause `C05:model`): an insertion either updates exactly the payload slot of
+  the vertex `locate` reported or appends one vertex whose handle is the old vertex count, and in
+  both cases the position and payload under every other existing handle are untouched
+  (`C05_model_new_handle_is_len`, `C05_model_keeps_handles`): all nine push sites are at the end.
+`C05_partial`: that an existing position is always *found* (completeness of `locate` on vertices)
+and the removal paths are decided per run by R1, not proved.
 -/
 import Spade.Abs
 import Spade.Spec
+import Spade.Proofs.InsertInv
 namespace Spade
 open AState
 
@@ -117,6 +123,20 @@ theorem C05_history_size (ops : List VOp) (a : AState) :
     have := ih (op.apply a)
     have := C05_step_size a op
     omega
+
+/-- on M: a new vertex always gets the handle `len` -/
+theorem C05_model_new_handle_is_len (s : St) (p : Pt) (d hint : Nat) (t : St) (v : Nat)
+    (h : s.insertM p d hint = some (t, v)) (hnew : t.pos.size ≠ s.pos.size) : v = s.nV := by
+  rcases St.insertM_effect s p d hint t v h with hu | ⟨hv, _⟩
+  · exact absurd (by rw [hu.1]) hnew
+  · exact hv
+
+/-- on M: insertion never changes what is stored under another existing handle -/
+theorem C05_model_keeps_handles (s : St) (p : Pt) (d hint : Nat) (t : St) (v : Nat)
+    (h : s.insertM p d hint = some (t, v)) (i : Nat) (hi : i < s.pos.size)
+    (hsz : s.data.size = s.pos.size) (hne : i ≠ v) :
+    t.pos[i]? = s.pos[i]? ∧ t.data[i]? = s.data[i]? :=
+  St.insertM_keeps_handles s p d hint t v h i hi hsz hne
 
 /-- non-vacuity -/
 example : (AState.empty.insert ⟨1, 2⟩ 7).2 = 0 ∧ ((AState.empty.insert ⟨1, 2⟩ 7).1.insert ⟨1, 2⟩ 9).2 = 0 ∧
